@@ -257,7 +257,8 @@ Section ReadProofs.
   Lemma col_scan_coerce c v c' : col_scan c v = Ok c' -> c_coerce c' = c_coerce c.
   Proof.
     unfold Sql.col_scan. destruct (c_coerce c) as [k|] eqn:Ec.
-    - unfold coerce_scan. destruct k, v; try discriminate.
+    - unfold coerce_scan. destruct k, v; try discriminate;
+        try (intros H; unfold col_null in H; destruct (c_kind c); inversion H; subst; simpl; auto; fail).
       + intros H; inversion H; subst. unfold col_bool.
         destruct (is_pnil (c_ptr c)); simpl; auto.
       + destruct (pf s); [|discriminate]. intros H; inversion H; subst. unfold col_float.
